@@ -21,7 +21,9 @@ impl Labels {
 	fn get_or_add_unchecked(&mut self, pc: u16) -> &mut Label {
 		self.labels.entry(pc).or_insert_with(|| {
 			let label = Label { id: self.max_id };
-			self.max_id += 1;
+			// There are at most 65536 distinct bytecode offsets (0..=code_length), so once the label with
+			// id 65535 has been handed out no further label can be created and this value is never read again.
+			self.max_id = self.max_id.wrapping_add(1);
 			label
 		})
 	}
